@@ -392,43 +392,46 @@ func c13KMAC(run *mon.Run) {
 		var stream []byte
 		clean := true
 		var trace []string
-		for s := 0; s < 3+r.IntN(10); s++ {
-			switch op := r.IntN(10); {
-			case op < 2:
-				msg := mon.RandBytes(r, r.IntN(400))
-				trace = append(trace, fmt.Sprintf("ComputeHash(%d)", len(msg)))
-				run.Eval(1)
-				if got, want := h.ComputeHash(msg), ref.KMAC128(key, msg, size, cust); !bytes.Equal(got, want) {
-					run.Violate("C13:kmac:history-ComputeHash", fmt.Sprintf("got %x want %x", []byte(got), want), map[string]any{"trace": trace, "key": mon.Hex(key), "customizer": mon.Hex(cust), "size": size})
-				}
-				clean = false
-			case op < 4:
-				trace = append(trace, "Reset")
-				h.Reset()
-				stream, clean = stream[:0], true
-			case op < 8:
-				if !clean {
+		run.Guard("kmac-history", map[string]any{"key": mon.Hex(key), "size": size}, func() {
+			for s := 0; s < 3+r.IntN(10); s++ {
+				switch op := r.IntN(10); {
+				case op < 2:
+					msg := mon.RandBytes(r, r.IntN(400))
+					trace = append(trace, fmt.Sprintf("ComputeHash(%d)", len(msg)))
+					run.Eval(1)
+					if got, want := h.ComputeHash(msg), ref.KMAC128(key, msg, size, cust); !bytes.Equal(got, want) {
+						run.Violate("C13:kmac:history-ComputeHash", fmt.Sprintf("got %x want %x", []byte(got), want), map[string]any{"trace": trace, "key": mon.Hex(key), "customizer": mon.Hex(cust), "size": size})
+					}
+					// KMAC's ComputeHash is documented not to update the underlying state: the stream
+					// written so far continues unchanged (no Reset needed)
+				case op < 4:
+					trace = append(trace, "Reset")
 					h.Reset()
 					stream, clean = stream[:0], true
-					trace = append(trace, "Reset")
-				}
-				msg := mon.RandBytes(r, []int{0, 1, 167, 168, 169, r.IntN(400)}[r.IntN(6)])
-				trace = append(trace, fmt.Sprintf("Write(%d)", len(msg)))
-				_, _ = h.Write(msg)
-				stream = append(stream, msg...)
-			default:
-				if !clean {
-					h.Reset()
-					stream, clean = stream[:0], true
-					trace = append(trace, "Reset")
-				}
-				trace = append(trace, "SumHash")
-				run.Eval(1)
-				if got, want := h.SumHash(), ref.KMAC128(key, stream, size, cust); !bytes.Equal(got, want) {
-					run.Violate("C13:kmac:history-SumHash", fmt.Sprintf("got %x want %x", []byte(got), want), map[string]any{"trace": trace, "key": mon.Hex(key), "customizer": mon.Hex(cust), "size": size, "stream_len": len(stream)})
+				case op < 8:
+					if !clean {
+						h.Reset()
+						stream, clean = stream[:0], true
+						trace = append(trace, "Reset")
+					}
+					msg := mon.RandBytes(r, []int{0, 1, 167, 168, 169, r.IntN(400)}[r.IntN(6)])
+					trace = append(trace, fmt.Sprintf("Write(%d)", len(msg)))
+					_, _ = h.Write(msg)
+					stream = append(stream, msg...)
+				default:
+					if !clean {
+						h.Reset()
+						stream, clean = stream[:0], true
+						trace = append(trace, "Reset")
+					}
+					trace = append(trace, "SumHash")
+					run.Eval(1)
+					if got, want := h.SumHash(), ref.KMAC128(key, stream, size, cust); !bytes.Equal(got, want) {
+						run.Violate("C13:kmac:history-SumHash", fmt.Sprintf("got %x want %x", []byte(got), want), map[string]any{"trace": trace, "key": mon.Hex(key), "customizer": mon.Hex(cust), "size": size, "stream_len": len(stream)})
+					}
 				}
 			}
-		}
+		})
 		run.Count("histories.kmac", 1)
 	}
 	run.Shape("kmac|histories")
